@@ -61,6 +61,33 @@ M = [
             return is;
         } else {
             static_cast<M &>(m) = static_cast<const M &>(in);"""),
+ ('M10 read(is, Vector&) assigns the destination even when the read failed', 'src/Utils/IO.cpp',
+  """        if (is) v = std::move(in);
+        return is;""", """        v = std::move(in);
+        return is;"""),
+ ('M11 POMDP::Policy writer forgets the closing separator', 'src/POMDP/IO.cpp',
+  """        // put on the stream, and the loader will work.
+        os << "@\\n";
+""", """        // put on the stream, and the loader will work.
+"""),
+ ('M12 sparse matrix reader drops the column range check', 'src/Utils/IO.cpp',
+  """            if (c >= static_cast<size_t>(m.cols())) {
+                AI_LOGGER(AI_SEVERITY_ERROR, "Invalid column index while reading SparseMatrix2D data""", """            if (false && c >= static_cast<size_t>(m.cols())) {
+                AI_LOGGER(AI_SEVERITY_ERROR, "Invalid column index while reading SparseMatrix2D data"""),
+ ('M13 dense Experience reader stores the rewards through setM2Matrix', 'src/MDP/IO.cpp',
+  """        auto rewards = e.getRewardMatrix();
+        if (!read(is, rewards)) {
+            AI_LOGGER(AI_SEVERITY_ERROR, "Could not read Experience rewards matrix.");
+            return is;
+        } else
+            e.setRewardMatrix(rewards);
+""", """        auto rewards = e.getRewardMatrix();
+        if (!read(is, rewards)) {
+            AI_LOGGER(AI_SEVERITY_ERROR, "Could not read Experience rewards matrix.");
+            return is;
+        } else
+            e.setM2Matrix(rewards);
+"""),
  ('H1 harmless: Matrix2D writer uses setprecision(17) through a manipulator', 'src/Utils/IO.cpp',
   """    std::ostream & write(std::ostream & os, const Matrix2D & m) {
         const auto oldPrecision = os.precision(std::numeric_limits<double>::max_digits10);
